@@ -39,7 +39,7 @@ func (c04) Cases(tier string, race bool) int {
 	return 40000
 }
 
-var c04gen = xt.GenCfg{Names: []string{"a", "b", "c", "d", "x-y", "Ab"}, Prefixes: []string{"", "", "", "ns", "n2"}, Texts: c02texts, MaxKids: 5, MaxAttrs: 4, WideProb: 60, SeqMode: true}
+var c04gen = xt.GenCfg{Names: []string{"a", "b", "c", "d", "x-y", "Ab", ":item", ":a"}, Prefixes: []string{"", "", "", "ns", "n2"}, Texts: c02texts, MaxKids: 5, MaxAttrs: 4, WideProb: 60, SeqMode: true}
 
 var formattedRe = regexp.MustCompile(`>[\n\t\r ]*<`)
 
